@@ -1,19 +1,279 @@
-//! E5: controlled-scheduler (shuttle) exploration of an instrumented copy of falcon-rust.
-//! Every std::sync / std::thread / thread_local! / lazy_static! use of the library is shuttle's,
-//! so every lock, atomic, Once and thread-local access inside an API call is a scheduling point.
-//! Programs: 2-3 threads sharing keys; oracle: each thread's results equal what the same calls
-//! produce when run alone (differential), signatures verify, salts are distinct.
-//! Output: one JSON object per program on stdout.
+//! E5: controlled-scheduler exploration of an instrumented copy of falcon-rust (shuttle engine).
+//!
+//! Every std::sync / std::thread / thread_local! / lazy_static! / OnceLock use of the library is
+//! shuttle's in the copy, so every lock, atomic, Once and thread-local access inside an API call is a
+//! scheduling point. The driver owns the exploration: an exhaustive search with *preemption bounding*
+//! (CHESS): every schedule with at most B preemptions is executed exactly once, fewest preemptions
+//! first. A preemption is a switch away from a task that could have continued; switches at blocking
+//! points, task exit and explicit yields are free.
+//!
+//! Each execution runs in a forked child of the driver, taken after the (single-threaded, also
+//! scheduler-controlled) set-up: process-wide statics a change may have introduced start from the
+//! same state in every execution, so executions are deterministic functions of their choice prefix
+//! and can be replayed, and children run in parallel.
+//!
+//! Programs: 2-3 threads sharing freshly decoded key objects. Oracle: each thread's results equal what
+//! the same calls produce alone (differential, when the baseline is deterministic), signatures verify,
+//! salts are distinct.
+//!
+//! Output: one JSON object per line on stdout.
 
 use falcon_rust::{falcon1024, falcon512, verif_hooks as fh};
 use rand::SeedableRng;
-use serde_json::json;
-use shuttle::scheduler::DfsScheduler;
+use serde_json::{json, Value};
+use shuttle::scheduler::{Schedule, Scheduler, Task, TaskId};
 use shuttle::{Config, Runner};
-use std::sync::atomic::{AtomicUsize, Ordering};
+use std::collections::BTreeMap;
+use std::io::Read;
+use std::os::fd::FromRawFd;
 use std::sync::{Arc, Mutex};
 
+/// maximum number of executions per program
 const CAP: usize = 20_000;
+/// decision points of one execution that are kept (and can be deviated from)
+const KEEP: usize = 4096;
+/// children run at the same time
+const PAR: usize = 14;
+
+#[derive(Default, Clone)]
+struct Record {
+    /// (alternatives, running task still enabled, preemptions before) for the first KEEP points
+    points: Vec<(usize, bool, usize)>,
+    choices: Vec<usize>,
+    npoints: usize,
+    diverged: bool,
+}
+
+/// Scheduler for exactly one execution: follows `prefix` (indices into the canonical order of the
+/// runnable tasks: the running task first, then ascending ids), then always takes choice 0.
+struct OneShot {
+    prefix: Vec<usize>,
+    step: usize,
+    preemptions: usize,
+    started: bool,
+    rec: Arc<Mutex<Record>>,
+}
+
+impl Scheduler for OneShot {
+    fn new_execution(&mut self) -> Option<Schedule> {
+        if self.started {
+            return None;
+        }
+        self.started = true;
+        Some(Schedule::new(0x5eed))
+    }
+
+    fn next_task(&mut self, runnable: &[&Task], current: Option<TaskId>, is_yielding: bool) -> Option<TaskId> {
+        let cur_enabled = match current {
+            Some(c) => runnable.iter().any(|t| t.id() == c) && !is_yielding,
+            None => false,
+        };
+        let mut order: Vec<TaskId> = vec![];
+        if cur_enabled {
+            order.push(current.unwrap());
+        }
+        let mut rest: Vec<TaskId> = runnable.iter().map(|t| t.id()).filter(|id| !(cur_enabled && Some(*id) == current)).collect();
+        rest.sort_by_key(|id| usize::from(*id));
+        if is_yielding {
+            if let Some(c) = current {
+                if let Some(pos) = rest.iter().position(|id| *id == c) {
+                    let y = rest.remove(pos);
+                    rest.push(y);
+                }
+            }
+        }
+        order.extend(rest);
+        let mut rec = self.rec.lock().unwrap();
+        let choice = if self.step < self.prefix.len() {
+            let c = self.prefix[self.step];
+            if c >= order.len() {
+                // must not happen: executions are deterministic functions of the prefix
+                rec.diverged = true;
+                order.len() - 1
+            } else {
+                c
+            }
+        } else {
+            0
+        };
+        if rec.points.len() < KEEP {
+            rec.points.push((order.len(), cur_enabled, self.preemptions));
+            rec.choices.push(choice);
+        }
+        rec.npoints += 1;
+        if choice != 0 && cur_enabled {
+            self.preemptions += 1;
+        }
+        self.step += 1;
+        Some(order[choice])
+    }
+
+    fn next_u64(&mut self) -> u64 {
+        panic!("the driver does not use scheduler-provided random data");
+    }
+}
+
+fn panic_text(e: Box<dyn std::any::Any + Send>) -> String {
+    if let Some(s) = e.downcast_ref::<String>() {
+        s.clone()
+    } else if let Some(s) = e.downcast_ref::<&str>() {
+        s.to_string()
+    } else {
+        "panic".to_string()
+    }
+}
+
+/// one execution of `f` under the given choice prefix, in this process
+/// step budget of one execution: a multiple of what the set-up execution needed (set in main)
+static STEP_BUDGET: std::sync::atomic::AtomicUsize = std::sync::atomic::AtomicUsize::new(400_000_000);
+
+fn run_one(f: Arc<dyn Fn() + Send + Sync>, prefix: Vec<usize>) -> (Option<String>, Record) {
+    let rec = Arc::new(Mutex::new(Record::default()));
+    let mut config = Config::new();
+    config.stack_size = 64 << 20;
+    config.max_steps = shuttle::MaxSteps::FailAfter(STEP_BUDGET.load(std::sync::atomic::Ordering::SeqCst));
+    let sched = OneShot { prefix, step: 0, preemptions: 0, started: false, rec: rec.clone() };
+    let r = std::panic::catch_unwind(std::panic::AssertUnwindSafe(move || {
+        Runner::new(sched, config).run(move || f());
+    }));
+    let record = rec.lock().unwrap_or_else(|e| e.into_inner()).clone();
+    (r.err().map(panic_text), record)
+}
+
+fn encode(failure: &Option<String>, rec: &Record) -> String {
+    let pts: Vec<Value> = rec.points.iter().zip(rec.choices.iter()).map(|((n, e, p), c)| json!([n, if *e { 1 } else { 0 }, p, c])).collect();
+    json!({"failure": failure, "npoints": rec.npoints, "diverged": rec.diverged, "points": pts}).to_string()
+}
+
+fn decode(s: &str) -> Option<(Option<String>, Record)> {
+    let v: Value = serde_json::from_str(s).ok()?;
+    let mut rec = Record { npoints: v.get("npoints")?.as_u64()? as usize, diverged: v.get("diverged")?.as_bool()?, ..Default::default() };
+    for p in v.get("points")?.as_array()? {
+        let a = p.as_array()?;
+        rec.points.push((a[0].as_u64()? as usize, a[1].as_u64()? == 1, a[2].as_u64()? as usize));
+        rec.choices.push(a[3].as_u64()? as usize);
+    }
+    Some((v.get("failure").and_then(|x| x.as_str()).map(|s| s.to_string()), rec))
+}
+
+/// run the executions for `prefixes` in forked children (all at once), return their results in order
+fn run_forked(f: &Arc<dyn Fn() + Send + Sync>, prefixes: &[Vec<usize>]) -> Vec<Option<(Option<String>, Record)>> {
+    let mut kids: Vec<(i32, i32)> = vec![]; // (pid, read fd)
+    for p in prefixes {
+        let mut fds = [0i32; 2];
+        if unsafe { libc::pipe(fds.as_mut_ptr()) } != 0 {
+            kids.push((-1, -1));
+            continue;
+        }
+        let pid = unsafe { libc::fork() };
+        if pid == 0 {
+            // child: one execution, result to the pipe, no atexit handlers
+            unsafe { libc::close(fds[0]) };
+            let (failure, rec) = run_one(f.clone(), p.clone());
+            let out = encode(&failure, &rec);
+            let bytes = out.as_bytes();
+            let mut off = 0;
+            while off < bytes.len() {
+                let n = unsafe { libc::write(fds[1], bytes[off..].as_ptr() as *const libc::c_void, bytes.len() - off) };
+                if n <= 0 {
+                    break;
+                }
+                off += n as usize;
+            }
+            unsafe {
+                libc::close(fds[1]);
+                libc::_exit(0);
+            }
+        }
+        unsafe { libc::close(fds[1]) };
+        kids.push((pid, fds[0]));
+    }
+    let mut results = vec![];
+    for (pid, fd) in kids {
+        if pid <= 0 {
+            results.push(None);
+            continue;
+        }
+        let mut s = String::new();
+        let mut file = unsafe { std::fs::File::from_raw_fd(fd) };
+        let _ = file.read_to_string(&mut s);
+        drop(file);
+        let mut status = 0i32;
+        unsafe { libc::waitpid(pid, &mut status, 0) };
+        results.push(decode(&s));
+    }
+    results
+}
+
+struct Outcome {
+    name: &'static str,
+    schedules: usize,
+    capped: bool,
+    bound: usize,
+    failure: Option<String>,
+    prefix: Option<Vec<usize>>,
+    per_cost: BTreeMap<usize, usize>,
+    truncated_points: bool,
+    crashed_children: usize,
+}
+
+/// all schedules with at most `bound` preemptions, fewest preemptions first
+fn explore(name: &'static str, f: Arc<dyn Fn() + Send + Sync>, bound: usize) -> Outcome {
+    let mut out = Outcome { name, schedules: 0, capped: false, bound, failure: None, prefix: None, per_cost: BTreeMap::new(), truncated_points: false, crashed_children: 0 };
+    // pending prefixes by number of preemptions
+    let mut pending: BTreeMap<usize, Vec<Vec<usize>>> = BTreeMap::new();
+    pending.insert(0, vec![vec![]]);
+    loop {
+        let Some((&cost, _)) = pending.iter().find(|(_, v)| !v.is_empty()) else { break };
+        let level = pending.get_mut(&cost).unwrap();
+        let take = level.len().min(PAR).min(CAP.saturating_sub(out.schedules));
+        if take == 0 {
+            out.capped = true;
+            break;
+        }
+        let batch: Vec<Vec<usize>> = level.drain(..take).collect();
+        let results = run_forked(&f, &batch);
+        for (prefix, res) in batch.into_iter().zip(results.into_iter()) {
+            out.schedules += 1;
+            *out.per_cost.entry(cost).or_insert(0) += 1;
+            let Some((failure, rec)) = res else {
+                out.crashed_children += 1;
+                continue;
+            };
+            if rec.diverged {
+                out.failure = Some("an execution did not follow its recorded choice prefix (the program is not a deterministic function of the schedule)".to_string());
+                out.prefix = Some(prefix);
+                return out;
+            }
+            if let Some(fl) = failure {
+                let fl = if fl.contains("exceeded max_steps") {
+                    format!("the execution did not finish within 10x the scheduling steps of the single-threaded set-up (a call does not terminate under this interleaving) [{}]", fl.split('.').next().unwrap_or(""))
+                } else {
+                    fl
+                };
+                out.failure = Some(format!("{} (schedule with {} preemption(s))", fl, cost));
+                out.prefix = Some(prefix);
+                return out;
+            }
+            if rec.npoints > rec.points.len() {
+                out.truncated_points = true;
+            }
+            for i in prefix.len()..rec.points.len() {
+                let (nalts, cur_enabled, before) = rec.points[i];
+                let kid_cost = before + usize::from(cur_enabled);
+                if kid_cost > bound {
+                    continue;
+                }
+                for alt in 1..nalts {
+                    let mut p = rec.choices[..i].to_vec();
+                    p.push(alt);
+                    pending.entry(kid_cost).or_default().push(p);
+                }
+            }
+        }
+    }
+    out
+}
 
 fn seed(i: u8) -> [u8; 32] {
     let mut s = [0u8; 32];
@@ -40,164 +300,165 @@ fn sign1024(id: u64, msg: &[u8], sk: &falcon1024::SecretKey) -> Vec<u8> {
     s
 }
 
-struct Outcome {
-    name: &'static str,
-    schedules: usize,
-    capped: bool,
-    failure: Option<String>,
+#[derive(Default, Clone, PartialEq)]
+struct Setup {
+    sk1: Vec<u8>,
+    pk1: Vec<u8>,
+    sk2: Vec<u8>,
+    pk2: Vec<u8>,
+    sigs: Vec<Vec<u8>>,
+    key9: (Vec<u8>, Vec<u8>),
 }
 
-fn replay_schedule() -> Option<String> {
-    let a: Vec<String> = std::env::args().collect();
-    if a.len() >= 4 && a[1] == "replay" {
-        Some(a[3].clone())
-    } else {
-        None
+/// keys and sequential baselines; runs in this process under the scheduler (single thread)
+fn run_setup() -> Result<Setup, String> {
+    let slot: Arc<Mutex<Option<Setup>>> = Arc::new(Mutex::new(None));
+    let s2 = slot.clone();
+    let f: Arc<dyn Fn() + Send + Sync> = Arc::new(move || {
+        let (sk1, pk1) = falcon512::keygen(seed(1));
+        let (sk2, pk2) = falcon1024::keygen(seed(2));
+        let (k9s, k9p) = falcon512::keygen(seed(9));
+        let k1 = falcon512::SecretKey::from_bytes(&sk1.to_bytes()).expect("own key decodes");
+        let k2 = falcon1024::SecretKey::from_bytes(&sk2.to_bytes()).expect("own key decodes");
+        let sigs = vec![sign512(1, b"message A", &k1), sign512(2, b"a longer message B ............", &k1), sign1024(3, b"message A", &k2)];
+        *s2.lock().unwrap() = Some(Setup { sk1: sk1.to_bytes(), pk1: pk1.to_bytes(), sk2: sk2.to_bytes(), pk2: pk2.to_bytes(), sigs, key9: (k9s.to_bytes(), k9p.to_bytes()) });
+    });
+    let (failure, rec) = run_one(f, vec![]);
+    if let Some(fl) = failure {
+        return Err(fl);
     }
-}
-
-fn explore(name: &'static str, f: impl Fn() + Send + Sync + 'static) -> Outcome {
-    if name != "baseline" {
-        if let Some(sched) = replay_schedule() {
-            let r = std::panic::catch_unwind(std::panic::AssertUnwindSafe(|| shuttle::replay(f, &sched)));
-            let failure = r.err().map(|e| e.downcast_ref::<String>().cloned().or_else(|| e.downcast_ref::<&str>().map(|s| s.to_string())).unwrap_or_else(|| "panic".into()));
-            return Outcome { name, schedules: 1, capped: false, failure };
-        }
-    }
-    let count = Arc::new(AtomicUsize::new(0));
-    let c2 = count.clone();
-    let failure: Arc<Mutex<Option<String>>> = Arc::new(Mutex::new(None));
-    let body = move || {
-        c2.fetch_add(1, Ordering::SeqCst);
-        f();
-    };
-    let mut config = Config::new();
-    config.stack_size = 64 << 20;
-    let r = std::panic::catch_unwind(std::panic::AssertUnwindSafe(|| {
-        let runner = Runner::new(DfsScheduler::new(Some(CAP), false), config);
-        runner.run(body)
-    }));
-    let mut out = Outcome { name, schedules: count.load(Ordering::SeqCst), capped: false, failure: None };
-    match r {
-        Ok(n) => {
-            out.schedules = n;
-            out.capped = n >= CAP;
-        }
-        Err(e) => {
-            let msg = if let Some(s) = e.downcast_ref::<String>() {
-                s.clone()
-            } else if let Some(s) = e.downcast_ref::<&str>() {
-                s.to_string()
-            } else {
-                "panic".to_string()
-            };
-            out.failure = Some(msg);
-        }
-    }
-    let _ = failure;
-    out
+    // an execution of a program does at most about as much work as the set-up (3 keygens + 3 signatures):
+    // a run that needs 10x its scheduling steps is reported as not terminating
+    STEP_BUDGET.store(10 * rec.npoints + 5_000_000, std::sync::atomic::Ordering::SeqCst);
+    let v = slot.lock().unwrap().clone();
+    v.ok_or_else(|| "set-up produced nothing".to_string())
 }
 
 fn main() {
-    let mut which = std::env::args().nth(1).unwrap_or_else(|| "all".to_string());
-    if which == "replay" {
-        which = std::env::args().nth(2).unwrap_or_else(|| "all".to_string());
-    }
-    // keys and sequential baselines, computed outside the scheduler
-    let (sk1, pk1) = falcon512::keygen(seed(1));
-    let (sk2, pk2) = falcon1024::keygen(seed(2));
-    let (sk1, pk1, sk2, pk2) = (Arc::new(sk1), Arc::new(pk1), Arc::new(sk2), Arc::new(pk2));
-    // baselines: the same calls, one after the other, inside a single-threaded shuttle execution
-    let bases: Arc<Mutex<Vec<Vec<u8>>>> = Arc::new(Mutex::new(vec![]));
-    {
-        let (b, k1, k2) = (bases.clone(), sk1.clone(), sk2.clone());
-        let o = explore("baseline", move || {
-            let v = vec![sign512(1, b"message A", &k1), sign512(2, b"a longer message B ............", &k1), sign1024(3, b"message A", &k2)];
-            *b.lock().unwrap() = v;
-        });
-        if o.failure.is_some() {
-            println!("{}", json!({"program": "baseline", "schedules": o.schedules, "failure": o.failure}));
-            std::process::exit(2);
-        }
-    }
-    let (base_a, base_b, base_c) = {
-        let b = bases.lock().unwrap();
-        (b[0].clone(), b[1].clone(), b[2].clone())
-    };
-    let base_k = {
-        let (s, p) = falcon512::keygen(seed(9));
-        (s.to_bytes(), p.to_bytes())
-    };
-    let mut outcomes = vec![];
+    let args: Vec<String> = std::env::args().collect();
+    let replay = args.len() >= 4 && args[1] == "replay";
+    let which = if replay { args[2].clone() } else { args.get(1).cloned().unwrap_or_else(|| "all".to_string()) };
+    let bound: usize = std::env::var("E5_MAX_PREEMPTIONS").ok().and_then(|s| s.parse().ok()).unwrap_or(2);
 
-    if which == "all" || which == "sign" {
-        let (sk1c, pk1c, sk2c, pk2c) = (sk1.clone(), pk1.clone(), sk2.clone(), pk2.clone());
-        let (ba, bb, bc) = (base_a.clone(), base_b.clone(), base_c.clone());
-        outcomes.push(explore("three threads sign with shared keys (512: two messages, 1024: one)", move || {
-            let (sk1, pk1, sk2, pk2) = (sk1c.clone(), pk1c.clone(), sk2c.clone(), pk2c.clone());
-            let (sk1b, pk1b) = (sk1.clone(), pk1.clone());
-            let t1 = shuttle::thread::spawn(move || {
-                let s = sign512(1, b"message A", &sk1);
-                let sig = falcon512::Signature::from_bytes(&s).unwrap();
-                assert!(falcon512::verify(b"message A", &sig, &pk1), "signature of thread 1 does not verify");
-                s
-            });
-            let t2 = shuttle::thread::spawn(move || {
-                let s = sign512(2, b"a longer message B ............", &sk1b);
-                let sig = falcon512::Signature::from_bytes(&s).unwrap();
-                assert!(falcon512::verify(b"a longer message B ............", &sig, &pk1b), "signature of thread 2 does not verify");
-                s
-            });
-            let t3 = shuttle::thread::spawn(move || {
-                let s = sign1024(3, b"message A", &sk2);
-                let sig = falcon1024::Signature::from_bytes(&s).unwrap();
-                assert!(falcon1024::verify(b"message A", &sig, &pk2), "signature of thread 3 does not verify");
-                s
-            });
-            let (a, b, c) = (t1.join().unwrap(), t2.join().unwrap(), t3.join().unwrap());
-            assert!(a[1..41] != b[1..41] && a[1..41] != c[1..41] && b[1..41] != c[1..41], "two concurrent signatures carry the same salt");
-            assert!(a == ba, "thread 1's signature differs from the one the same call produces alone");
-            assert!(b == bb, "thread 2's signature differs from the one the same call produces alone");
-            assert!(c == bc, "thread 3's signature differs from the one the same call produces alone");
-        }));
+    let setup = match run_setup() {
+        Ok(s) => s,
+        Err(e) => {
+            println!("{}", json!({"program": "set-up (keygen x3, sign x3, single thread)", "schedules": 1, "failure": e}));
+            std::process::exit(0);
+        }
+    };
+    // second run: if the same calls with the same installed streams do not repeat byte for byte, the
+    // library draws randomness the hook does not own (e.g. straight from the OS); the byte-equality oracle
+    // is then dropped and only the property-level oracles (verify, distinct salts) remain
+    let deterministic = matches!(run_setup(), Ok(again) if again == setup);
+    println!("{}", json!({"note": "baseline", "deterministic_under_installed_streams": deterministic}));
+    let setup = Arc::new(setup);
+
+    let mut programs: Vec<(&'static str, &'static str, Arc<dyn Fn() + Send + Sync>)> = vec![];
+    {
+        let st = setup.clone();
+        programs.push((
+            "sign",
+            "three threads sign with shared keys (512: two messages, 1024: one)",
+            Arc::new(move || {
+                // fresh key objects in every execution (a key object may carry lazily built state: its first
+                // use must happen under the scheduler too)
+                let sk1 = Arc::new(falcon512::SecretKey::from_bytes(&st.sk1).expect("own key decodes"));
+                let sk2 = Arc::new(falcon1024::SecretKey::from_bytes(&st.sk2).expect("own key decodes"));
+                let pk1 = Arc::new(falcon512::PublicKey::from_bytes(&st.pk1).expect("own key decodes"));
+                let pk2 = Arc::new(falcon1024::PublicKey::from_bytes(&st.pk2).expect("own key decodes"));
+                let (sk1b, pk1b) = (sk1.clone(), pk1.clone());
+                let t1 = shuttle::thread::spawn(move || {
+                    let s = sign512(1, b"message A", &sk1);
+                    let sig = falcon512::Signature::from_bytes(&s).unwrap();
+                    assert!(falcon512::verify(b"message A", &sig, &pk1), "signature of thread 1 does not verify");
+                    s
+                });
+                let t2 = shuttle::thread::spawn(move || {
+                    let s = sign512(2, b"a longer message B ............", &sk1b);
+                    let sig = falcon512::Signature::from_bytes(&s).unwrap();
+                    assert!(falcon512::verify(b"a longer message B ............", &sig, &pk1b), "signature of thread 2 does not verify");
+                    s
+                });
+                let t3 = shuttle::thread::spawn(move || {
+                    let s = sign1024(3, b"message A", &sk2);
+                    let sig = falcon1024::Signature::from_bytes(&s).unwrap();
+                    assert!(falcon1024::verify(b"message A", &sig, &pk2), "signature of thread 3 does not verify");
+                    s
+                });
+                let (a, b, c) = (t1.join().unwrap(), t2.join().unwrap(), t3.join().unwrap());
+                assert!(a[1..41] != b[1..41] && a[1..41] != c[1..41] && b[1..41] != c[1..41], "two concurrent signatures carry the same salt");
+                if deterministic {
+                    assert!(a == st.sigs[0], "thread 1's signature differs from the one the same call produces alone");
+                    assert!(b == st.sigs[1], "thread 2's signature differs from the one the same call produces alone");
+                    assert!(c == st.sigs[2], "thread 3's signature differs from the one the same call produces alone");
+                }
+            }),
+        ));
     }
-    if which == "keygen" {
-        let sk1c = sk1.clone();
-        let bk = base_k.clone();
-        let ba = base_a.clone();
-        outcomes.push(explore("one thread runs keygen(seed 9) while another signs", move || {
-            let sk1 = sk1c.clone();
-            let k1 = shuttle::thread::spawn(|| {
-                let (s, p) = falcon512::keygen(seed(9));
-                (s.to_bytes(), p.to_bytes())
-            });
-            let s3 = shuttle::thread::spawn(move || sign512(1, b"message A", &sk1));
-            let (a, c) = (k1.join().unwrap(), s3.join().unwrap());
-            assert!(a == bk, "keygen(seed) run next to a signer differs from keygen(seed) run alone");
-            assert!(c == ba, "a signature made during key generation differs from the one made alone");
-        }));
+    {
+        let st = setup.clone();
+        programs.push((
+            "keygen",
+            "one thread runs keygen(seed 9) while another signs",
+            Arc::new(move || {
+                let sk1 = Arc::new(falcon512::SecretKey::from_bytes(&st.sk1).expect("own key decodes"));
+                let k1 = shuttle::thread::spawn(|| {
+                    let (s, p) = falcon512::keygen(seed(9));
+                    (s.to_bytes(), p.to_bytes())
+                });
+                let s3 = shuttle::thread::spawn(move || sign512(1, b"message A", &sk1));
+                let (a, c) = (k1.join().unwrap(), s3.join().unwrap());
+                assert!(a == st.key9, "keygen(seed) run next to a signer differs from keygen(seed) run alone");
+                if deterministic {
+                    assert!(c == st.sigs[0], "a signature made during key generation differs from the one made alone");
+                }
+            }),
+        ));
     }
-    if which == "all" || which == "keygen3" {
-        let sk1c = sk1.clone();
-        let bk = base_k.clone();
-        let ba = base_a.clone();
-        outcomes.push(explore("two threads keygen(seed 9) while a third signs", move || {
-            let sk1 = sk1c.clone();
-            let k1 = shuttle::thread::spawn(|| {
-                let (s, p) = falcon512::keygen(seed(9));
-                (s.to_bytes(), p.to_bytes())
-            });
-            let k2 = shuttle::thread::spawn(|| {
-                let (s, p) = falcon512::keygen(seed(9));
-                (s.to_bytes(), p.to_bytes())
-            });
-            let s3 = shuttle::thread::spawn(move || sign512(1, b"message A", &sk1));
-            let (a, b, c) = (k1.join().unwrap(), k2.join().unwrap(), s3.join().unwrap());
-            assert!(a == bk && b == bk, "concurrent keygen(seed) differs from keygen(seed) run alone");
-            assert!(c == ba, "a signature made during key generation differs from the one made alone");
-        }));
+    {
+        let st = setup.clone();
+        programs.push((
+            "keygen3",
+            "two threads keygen(seed 9) while a third signs",
+            Arc::new(move || {
+                let sk1 = Arc::new(falcon512::SecretKey::from_bytes(&st.sk1).expect("own key decodes"));
+                let k1 = shuttle::thread::spawn(|| {
+                    let (s, p) = falcon512::keygen(seed(9));
+                    (s.to_bytes(), p.to_bytes())
+                });
+                let k2 = shuttle::thread::spawn(|| {
+                    let (s, p) = falcon512::keygen(seed(9));
+                    (s.to_bytes(), p.to_bytes())
+                });
+                let s3 = shuttle::thread::spawn(move || sign512(1, b"message A", &sk1));
+                let (a, b, c) = (k1.join().unwrap(), k2.join().unwrap(), s3.join().unwrap());
+                assert!(a == st.key9 && b == st.key9, "concurrent keygen(seed) differs from keygen(seed) run alone");
+                if deterministic {
+                    assert!(c == st.sigs[0], "a signature made during key generation differs from the one made alone");
+                }
+            }),
+        ));
     }
-    for o in outcomes {
-        println!("{}", json!({"program": o.name, "schedules": o.schedules, "cap": CAP, "capped": o.capped, "failure": o.failure}));
+
+    for (key, name, f) in programs {
+        if which != "all" && which != key {
+            continue;
+        }
+        if replay {
+            let prefix: Vec<usize> = args[3].split(',').filter(|s| !s.is_empty()).filter_map(|s| s.parse().ok()).collect();
+            let res = run_forked(&f, &[prefix]);
+            let failure = res.into_iter().next().flatten().and_then(|(fl, _)| fl);
+            println!("{}", json!({"program": name, "replayed": true, "failure": failure}));
+            continue;
+        }
+        let o = explore(name, f, bound);
+        let per: Vec<Value> = o.per_cost.iter().map(|(k, v)| json!({"preemptions": k, "schedules": v})).collect();
+        println!(
+            "{}",
+            json!({"program": o.name, "schedules": o.schedules, "preemption_bound": o.bound, "cap": CAP, "capped": o.capped, "failure": o.failure,
+                   "prefix": o.prefix.map(|p| p.iter().map(|x| x.to_string()).collect::<Vec<_>>().join(",")),
+                   "per_preemption_count": per, "points_beyond_the_first_4096_not_deviated_from": o.truncated_points, "crashed_children": o.crashed_children})
+        );
     }
 }
